@@ -88,7 +88,7 @@ Theorem C05_e2e_sdk_link : forall cap c P, Bridge_SdkAsm.t_prog c = Some P -> Br
                   Bridge_SdkAsm.lrel ms2 qa2 /\ List.length (AsmSemQ.qa_um qa2) = cap.
 Proof. exact Bridge_SdkAsm.frun_sim. Qed.
 
-Theorem C04B_asmq_bridge : forall n T p a s k,
+Theorem C05_e2e_asmq_link : forall n T p a s k,
   Bridge_AsmQ.e_qprog T = Some p -> Bridge_AsmQ.qrel a s -> SemQ.qdefined_from p s (Z.of_nat k) ->
   Bridge_AsmQ.qcfg_bridge (List.length T) (AsmSemQ.arun_q T n (AsmSemQ.QRun k a)) (SemQ.qrun_from p s (Z.of_nat k) n).
 Proof. exact Bridge_AsmQ.asmq_bridge_from. Qed.
@@ -143,6 +143,6 @@ Qed.
 
 Print Assumptions C05_end_to_end_partial.
 Print Assumptions C05_e2e_sdk_link.
-Print Assumptions C04B_asmq_bridge.
+Print Assumptions C05_e2e_asmq_link.
 Print Assumptions C05_e2e_compiled_decidable.
 Print Assumptions C05_e2e_defined_decidable.
